@@ -321,7 +321,12 @@ def lastBestEvent : List (Ev μ π) → Option (List μ)
   | .best line _ :: r => (lastBestEvent r).or (some line)
   | .other _ :: r => lastBestEvent r
 
-/-! ## bounded exploration (executable) -/
+/-! ## bounded exploration (executable)
+
+Not used by any proof (the theorems of `Wee/Props/Threads.lean` hold for every number of events, by induction).  Run in
+the interpreter as a cross-check of the statements (alphabet `{best [1], other}`): bound 1 — 2024 states with writer and
+timer, 544 without either, 2009 for the pre-F8 variant; bound 2 — 5976 states; each a fixed point, every state
+satisfying the Boolean forms of no-deadlock, at-most-one-bestmove, `printed = writerOut emitted` at return. -/
 
 /-- the actions tried by the exploration: every label, with `sEmit` over the given alphabet -/
 def allActs (alphabet : List (Ev μ π)) : List (Act μ π) :=
